@@ -10,7 +10,7 @@ schema_validator is proved in two layers (nested cut loops):
  documented policy; wrap_handler's arity adapter, set_type's field selection / transform-before-cast, validate's custom
  validators are separate items.  `cast` is tableschema's Field.cast_value: assumed total function to value | CastError (T5).
 """
-from contracts.common import (Item, mk_resource, run_spec, ghost_row, expect_no_raise_or_same, _b)
+from contracts.common import (same_row_object, Item, mk_resource, run_spec, ghost_row, expect_no_raise_or_same, _b)
 
 TRUSTED = ['T1 pyvc model of Python (DESIGN 3)', 'T5 tableschema Field.cast_value: value | CastError, deterministic',
            'T2 re (set_type field pattern: compile(^name$).match uninterpreted)', 'T16 z3 / cvc5']
@@ -429,7 +429,7 @@ def sym_set_type_transformer(vc):
                 return None
 
             def rows_end(it, env, cap, events):
-                check(it, 'row-yielded-once-same-object', len(yields_of(events)) == 1 and yields_of(events)[0].obj is st['row'])
+                check(it, 'row-yielded-once', len(yields_of(events)) == 1 and same_row_object(it, yields_of(events)[0].obj, st['row']))
                 cover(it, 'row-iter-reachable%s' % sig)
 
             def f_start(it, env, fname):
